@@ -3,6 +3,7 @@ package core
 import (
 	"fmt"
 	"go/token"
+	"go/types"
 	"sort"
 	"strings"
 
@@ -269,6 +270,10 @@ func (r *Reach) andCond(p *ssa.BasicBlock, base DNF, cond ssa.Value, neg bool, d
 		return nil
 	}
 	if phi, ok := cond.(*ssa.Phi); ok && phi.Block() == p && depth < 6 {
+		// base is reach(p) when the branch at the end of p is being evaluated; when the φ is looked at from further down
+		// (as the value of a later φ) base carries more than that and must be kept
+		own := r.blocks[p]
+		isOwn := len(base) == len(own) && (len(base) == 0 || &base[0] == &own[0])
 		var acc DNF
 		for i, q := range p.Preds {
 			if r.back[[2]int{q.Index, p.Index}] {
@@ -278,13 +283,17 @@ func (r *Reach) andCond(p *ssa.BasicBlock, base DNF, cond ssa.Value, neg bool, d
 			if in == nil {
 				continue
 			}
-			acc = or(acc, r.andCond(q, in, phi.Edges[i], neg, depth+1))
+			ci := r.andCond(q, in, phi.Edges[i], neg, depth+1)
+			if !isOwn && ci != nil {
+				ci = And(base, ci)
+			}
+			acc = or(acc, ci)
 		}
 		return acc
 	}
 	// a boolean computed earlier as a value (x := a && b && f(); … if ok && !x): the φ lives in a block that
 	// dominates p; the path to p entered that block along exactly one edge
-	if phi, ok := cond.(*ssa.Phi); ok && phi.Block() != p && phi.Block().Dominates(p) && depth < 6 && allBoolish(phi) {
+	if phi, ok := cond.(*ssa.Phi); ok && phi.Block() != p && phi.Block().Dominates(p) && depth < 6 && (allBoolish(phi) || r.flagPhi(phi)) {
 		pb := phi.Block()
 		var acc DNF
 		for i, q := range pb.Preds {
@@ -304,6 +313,21 @@ func (r *Reach) andCond(p *ssa.BasicBlock, base DNF, cond ssa.Value, neg bool, d
 		return acc
 	}
 	return base.and(r.key(cond), Lit{V: cond, Neg: neg})
+}
+
+// flagPhi: a boolean variable assigned on several straight-line paths (fits := a && b; if fits && c { fits = f() }): a φ of
+// type bool whose block is entered by forward edges only (a flag carried round a loop stays an opaque atom).
+func (r *Reach) flagPhi(phi *ssa.Phi) bool {
+	if b, ok := phi.Type().Underlying().(*types.Basic); !ok || b.Kind() != types.Bool {
+		return false
+	}
+	pb := phi.Block()
+	for _, q := range pb.Preds {
+		if r.back[[2]int{q.Index, pb.Index}] {
+			return false
+		}
+	}
+	return len(phi.Edges) >= 2 && len(phi.Edges) <= 4
 }
 
 // allBoolish: every incoming value of the φ is a constant or a non-φ value (the shape go/ssa gives to && / || used as values).
